@@ -87,6 +87,12 @@ def opIcase (j : Json) : E Json := do
   let implArr ← match impl with
     | some a => do let l ← asArr a; pure (some l)
     | none => pure none
+  -- optional `"lowers":[null | [str.lower(a), str.lower(b) (, str.lower(c))], …]`: for items outside the ASCII model the
+  -- harness supplies Python's own folded texts; the property's sentence is then checked literally on them
+  -- (`checkC18Folded`) and the ASCII model is not consulted for that item
+  let lowersArr ← match optField j "lowers" with
+    | some a => do let l ← asArr a; pure (some l)
+    | none => pure none
   let mut models : Array Json := #[]
   let mut fails : Array Json := #[]
   let mut kAll := true
@@ -98,13 +104,28 @@ def opIcase (j : Json) : E Json := do
       | [a, b] => pure [(a, b)]
       | [a, b, c] => pure [(a, b), (b, c), (a, c)]
       | _ => throw "icase: item must have 2 or 3 strings"
+    let lowJ := match lowersArr with
+      | some l => l.getD idx Json.null
+      | none => Json.null
+    let lows : Option (List (List Char × List Char)) ← match lowJ with
+      | Json.null => pure none
+      | lj => do
+        let ls ← charsList lj
+        match ls with
+        | [a, b] => pure (some [(a, b)])
+        | [a, b, c] => pure (some [(a, b), (b, c), (a, c)])
+        | _ => throw "icase: lowers must have 2 or 3 strings"
     let ms := prs.map (fun p => modelPairObs hashFn p.1 p.2)
     models := models.push (jarr (ms.map jobs))
     if let some ia := implArr then
       let io ← (← asArr (ia.getD idx Json.null)).mapM parseObs
       if io.length != ms.length then throw "icase: impl/ items shape mismatch"
-      let k := (ms.zip io).all (fun p => pairK p.1 p.2)
-      let o1 := (prs.zip io).findSome? (fun p => checkC18 p.1.1 p.1.2 p.2)
+      let k := match lows with
+        | some _ => true
+        | none => (ms.zip io).all (fun p => pairK p.1 p.2)
+      let o1 := match lows with
+        | some lw => ((prs.zip lw).zip io).findSome? (fun p => checkC18Folded p.1.2.1 p.1.2.2 p.1.1.1 p.1.1.2 p.2)
+        | none => (prs.zip io).findSome? (fun p => checkC18 p.1.1 p.1.2 p.2)
       let o := match o1, io with
         | some e, _ => some e
         | none, [ab, bc, ac] => checkC18Triple ab bc ac
